@@ -206,9 +206,24 @@ def scte35sig : List String → Option String
 
 
 
+/-- `evopt <positive 0|1> <default> <hex of the ASCII option text>` → `ok:<int>` or `ValueError` -/
+def evopt : List String → Option String
+  | [positive, dflt, hex] => do
+    let bytes ← parseHex hex
+    let text := bytes.map fun b => Char.ofNat b.toNat
+    match parseEventInt (← parseInt dflt) (← parseBool positive) text with
+    | .ok v => some s!"ok:{v}"
+    | _ => some "ValueError"
+  | _ => none
+
+/-- `evdec <int>` → the canonical decimal text `decimalOf` (must be Python's `str`) -/
+def evdec : List String → Option String
+  | [z] => do some (String.ofList (decimalOf (← parseInt z)))
+  | _ => none
+
 /-- channels exported to `Main.lean` (collected by harness/gen_main.py) -/
 def channels : List (String × (List String → Option String)) :=
   [("emsg", emsg), ("oob", oob), ("emsgbox", emsgbox), ("emsgparse", emsgparse),
-   ("crc", crc), ("scte35enc", scte35enc), ("scte35parse", scte35parse), ("scte35sig", scte35sig)]
+   ("crc", crc), ("scte35enc", scte35enc), ("scte35parse", scte35parse), ("scte35sig", scte35sig), ("evopt", evopt), ("evdec", evdec)]
 
 end DashLive.Driver.Events
